@@ -15,6 +15,14 @@ A case is a plain JSON-able dict (floats as Python floats: json round-trips them
             MeasurementArray / XYDataSet, one element set to 0 afterwards: `xerr_edit`)
   scale     [xs, ys]: the whole problem was rescaled (x by xs, y by ys, uncertainties, parameters,
             ranges accordingly) from a problem of order one
+  types     (typed cases, gen_typed) the numeric TYPE of every number handed to the library and the
+            ROUTE by which the uncertainties reach the measurements; all numbers of such a case are
+            whole (or multiples of 1/4), so every type represents them exactly -- see TYPE NOTES
+  rep       (gen_repeated) y (and x) points recorded as repeated measurements: the readings, how
+            value and uncertainty are chosen; case["y"] / case["yerr"] are the value and the
+            uncertainty of each point as the harness computes them from the readings
+  signs     which parameters of the generating set were mirrored to the other, equivalent or
+            negative, branch (gaussian std -> -std, sine (a, b) -> (-a, -b), negative amplitudes)
 """
 import math
 import warnings
@@ -467,6 +475,10 @@ def call_fit(q, case, drop_xerr=False, use_range=True, holder=None):
     """hand the data to the library in the way the case says (holder: dict that receives the Plot
     when the fit is made through one)"""
     import numpy as np
+    if case.get("types"):
+        return call_fit_typed(q, case, drop_xerr, use_range, holder)
+    if case.get("rep"):
+        return call_fit_repeated(q, case, drop_xerr, use_range, holder)
     x, y = list(case["x"]), list(case["y"])
     xerr = None if drop_xerr else case["xerr"]
     yerr = case["yerr"]
@@ -544,6 +556,562 @@ def call_fit(q, case, drop_xerr=False, use_range=True, holder=None):
     if form == "kwargs":
         return q.fit(xdata=x, ydata=y, model=model, **ek, **kw)
     raise ValueError(form)
+
+
+
+# ---------------------------------------------------------------------------------------------
+# TYPE NOTES.  Wherever the fitting API takes a number it takes a `numbers.Real`; the generator
+# passes every kind the ecosystem produces, choosing data that the type represents EXACTLY (whole
+# numbers, or multiples of 1/4 for the non-integer types), so that the model sees the same number:
+#   int, float, np.float64, np.float32, np.int64, np.int32, an element of an integer array,
+#   fractions.Fraction; lists of each, ndarrays of dtype int64 / int32 / float32 / float64.
+# Excluded, with the reason:
+#   * bool: True is accepted as the number 1 everywhere; nothing in the fit API documents it.
+#   * xrange / parguess as an ndarray: documented as "tuple|list" / "list"; the code tests their
+#     truth value.  Their ELEMENTS are typed.
+#   * tuples as data or as evaluation points: the API accepts lists and arrays only.
+SCALAR_TYPES = ("float", "int", "np.float64", "np.float32", "np.int64", "np.int32", "arange-elem",
+                "Fraction")
+INT_TYPES = ("int", "np.int64", "np.int32", "arange-elem")
+SEQ_TYPES = ("list:float", "list:int", "list:np.int64", "list:np.int32", "list:np.float32",
+             "list:Fraction", "list:arange-elem", "array:int64", "array:int32", "array:float32",
+             "array:float64")
+ERR_ROUTES = ("kw", "ctor", "kw-on-marray", "kw-over-old", "setter", "setter-late", "relative-ctor",
+              "relative-setter")
+# kw            uncertainties by keyword next to plain data (constructor of the measurements)
+# ctor          MeasurementArray(values, uncertainties)
+# kw-on-marray  existing MeasurementArrays, uncertainties by keyword to fit() / XYDataSet()
+# kw-over-old   the same, the arrays already carried OTHER uncertainties (overwritten)
+# setter        existing MeasurementArrays, `measurement.error = s` element by element
+# setter-late   the same AFTER the arrays (carrying other uncertainties) were put into the XYDataSet
+#               that is fitted -- and, for half of them, after a first fit of that data (discarded)
+# relative-*    MeasurementArray(values, relative_error=r) / `measurement.relative_error = r`
+
+
+def _is_int_type(t):
+    return t.split(":")[-1] in INT_TYPES + ("int64", "int32")
+
+
+def conv_scalar(np, tag, v):
+    """the number v as an object of the type `tag`; raises when the type cannot represent it"""
+    from fractions import Fraction
+    v = float(v)
+    if tag == "float":
+        return v
+    if tag == "np.float64":
+        return np.float64(v)
+    if tag == "Fraction":
+        return Fraction(v)
+    if tag == "np.float32":
+        if float(np.float32(v)) != v:
+            raise ValueError("{!r} is not a binary32 number".format(v))
+        return np.float32(v)
+    if not v.is_integer():
+        raise ValueError("{!r} is not a whole number".format(v))
+    if tag == "int":
+        return int(v)
+    if tag == "np.int64":
+        return np.int64(int(v))
+    if tag == "np.int32":
+        return np.int32(int(v))
+    if tag == "arange-elem":
+        return np.arange(int(v), int(v) + 1)[0]
+    raise KeyError(tag)
+
+
+def conv_seq(np, tag, vs):
+    kind, el = tag.split(":")
+    if kind == "list":
+        return [conv_scalar(np, el, v) for v in vs]
+    dt = {"int64": np.int64, "int32": np.int32, "float32": np.float32, "float64": np.float64}[el]
+    a = np.array([float(v) for v in vs], dtype=np.float64).astype(dt)
+    if [float(t) for t in a] != [float(v) for v in vs]:
+        raise ValueError("not representable as " + el)
+    return a
+
+
+def typed_point(np, x, k):
+    """an evaluation point as an object of another numeric type that represents it exactly
+    (Fraction always; numpy integers where the point is whole; np.float32 where it is a binary32
+    number -- all judged in binary64 like a float: fit_function converts numpy numbers, fixes
+    e4aa6c1 / f2dbd01)"""
+    from fractions import Fraction
+    x = float(x)
+    opts = [Fraction(x)]
+    if x.is_integer() and abs(x) < 2 ** 31:
+        opts += [np.int64(int(x)), np.int32(int(x)), np.arange(int(x), int(x) + 1)[0]]
+    if float(np.float32(x)) == x:
+        opts.append(np.float32(x))
+    return opts[k % len(opts)]
+
+
+def _pick_types(grid):
+    whole = grid == 1.0
+    sc = [t for t in SCALAR_TYPES if whole or not _is_int_type(t)]
+    sq = [t for t in SEQ_TYPES if whole or not _is_int_type(t)]
+    return sc, sq
+
+
+# problems of order 10..1000 in whole numbers: (x-scale, y-scale) applied to gen_case's problem of
+# order one before its abscissae are snapped to the grid
+TYPED_SCALE = {"exponential": (4.0, 256.0), "gaussian": (4.0, 512.0), "custom:sine": (4.0, 128.0),
+               "custom:growth": (4.0, 32.0), "custom:lorentz": (4.0, 256.0)}
+
+
+def _typed_problem(rng, family, degree, grid, sy, want_range):
+    """the numbers of a typed case (no types yet); None when the draw is unusable"""
+    poly = family in PRESET_POLY
+    if poly:
+        d = {"linear": 1, "quadratic": 2}.get(family) or degree or rng.randint(1, 4)
+        m = d + 1
+        n = rng.randint(m + 3, 16)
+        # abscissae on the grid, centred (the normal matrix stays well-conditioned)
+        half = n if d <= 2 else max((n + 1) // 2, 4)
+        pool = [v * grid for v in range(-half, half + 1)]
+        xs = sorted(rng.sample(pool, min(n, len(pool))))
+        ptrue = [rng.choice([-3, -2, -1, 1, 2, 3]) * rng.choice([0.5, 1.0, 2.0]) for _ in range(m)]
+        f = REF["polynomial"]
+        case = {"model": family, "degree": d}
+        pscale = [1.0] * m
+    else:
+        base = gen_case(rng, family=family, want_range=False, noise_free=False, form="lists",
+                        sx="none", sy="none")
+        rescale(base, *TYPED_SCALE[family])
+        ptrue, pscale = list(base["ptrue"]), list(base["pscale"])
+        xs = sorted({round(v / grid) * grid for v in base["x"]})
+        f = ref_fn(family)
+        case = {"model": family}
+        m = len(ptrue)
+        if len(xs) < m + 4:
+            return None
+    if rng.random() < 0.3:
+        rng.shuffle(xs)
+    n = len(xs)
+    ys0 = [f(x, *ptrue) for x in xs]
+    top = max(abs(v) for v in ys0)
+    if top < 32 * grid or top > 2 ** 22:
+        return None
+    # uncertainties on the grid: common, or per point with a spread of 1..6
+    skind = sy or rng.choice(["common", "point", "point", "point", "none"])
+    # (the iterative models get the 1 % scatter of gen_case: with 2-12 % on a curve cut by an
+    # x-range the optimum itself can be lost -- thorough tier, a*sin(b*x) on its rising part)
+    unit = max(grid, round((0.02 if poly else 0.01) * top / grid) * grid)
+    yerr = None if skind == "none" else unit * rng.randint(1, 3) if skind == "common" else \
+        [unit * rng.randint(1, 6 if poly else 4) for _ in range(n)]
+    xkind, xerr = "none", None
+    if not poly:
+        xkind = rng.choice(["none", "none", "common", "point", "zeros"])
+        if xkind != "none" and skind == "none":
+            skind, yerr = "common", unit * rng.randint(1, 3)
+        if xkind == "common":
+            xerr = grid
+        elif xkind != "none":
+            xerr = [grid * rng.choice([1, 1, 2] if xkind == "point" else [0, 0, 1, 2])
+                    for _ in range(n)]
+            if not any(xerr):
+                xerr[rng.randrange(n)] = grid
+    sig = as_list(yerr, n) if (yerr is not None and poly) else [unit] * n
+    ys = [round((v + rng.gauss(0, 1) * s) / grid) * grid + 0.0 for v, s in zip(ys0, sig)]
+    case.update({"x": [float(v) for v in xs], "y": ys, "xerr": xerr, "yerr": yerr,
+                 "ptrue": ptrue, "pscale": pscale, "noise_free": False, "sx": xkind,
+                 "sy": skind, "xrange": None, "grid": grid})
+    if poly:
+        if rng.random() < 0.2:
+            case["parguess"] = [1.0] * m
+            case["guess_kind"] = rng.choice(["list", "tuple"])
+    else:
+        case["parguess"] = [v * (1 + rng.uniform(-0.1, 0.1)) for v in ptrue]
+    # x-range with bounds on the grid (on a data point or next to it)
+    if want_range is None:
+        want_range = rng.random() < 0.35
+    if want_range:
+        sx_ = sorted(xs)
+        need = m + 2 if poly else max(m + 4, (3 * n + 4) // 5)
+        for _ in range(20):
+            i = rng.randint(0, max(0, n - need))
+            j = rng.randint(min(n - 1, i + need - 1), n - 1)
+            lo = sx_[i] if rng.random() < 0.7 else sx_[i] - grid
+            hi = sx_[j] + grid if (j == n - 1 or rng.random() < 0.5) else sx_[j]
+            if sum(1 for v in xs if lo <= v < hi) >= need:
+                case["xrange"] = [float(lo), float(hi)]
+                break
+    a, b = min(xs), max(xs)
+    case["xs"] = [float(round(rng.uniform(a, b) / grid) * grid) for _ in range(4)]
+    return case
+
+
+def gen_typed(rng, family=None, degree=None, grid=None, force=None, want_range=None, sy=None):
+    """a fit problem in whole numbers (grid 1) or multiples of 1/4 (grid 0.25) with the type of
+    every number and the route of the uncertainties chosen (TYPE NOTES, ERR_ROUTES).
+    force: entries of case["types"] to fix (a deliberate scenario)"""
+    import numpy as np
+    family = family or rng.choice(["linear", "quadratic", "polynomial", "polynomial", "exponential",
+                                   "gaussian", "custom:sine", "custom:growth", "custom:lorentz"])
+    grid = grid or rng.choice([1.0, 1.0, 1.0, 0.25])
+    for _ in range(400):
+        case = _typed_problem(rng, family, degree, grid, sy, want_range)
+        if case is None:
+            continue
+        sc, sq = _pick_types(grid)
+        flt = [t for t in sc if not _is_int_type(t)]
+        fo = dict(force or {})
+        container = fo.get("container") or rng.choice(
+            ["lists", "xyds", "marrays", "marrays", "xyds.marrays", "xyds.marrays", "plot"])
+        plain = container in ("lists", "xyds", "plot")
+        T = {"container": container, "x": rng.choice(sq), "y": rng.choice(sq),
+             "xrange": rng.choice(sc), "xrange_seq": rng.choice(["tuple", "list"]),
+             "degrees": rng.choice(["int", "np.int64", "np.int32"]),
+             "parguess": rng.choice(["float", "np.float64", "np.float32", "int-where-large",
+                                     "Fraction"]),
+             "call": rng.choice(["fit", "fit", ".fit"]), "refit": rng.random() < 0.5}
+        for key in ("xerr", "yerr"):
+            err = case[key]
+            vals = case[key[0]]
+            route = None if err is None else "kw" if plain else fo.get(key + "_route") or \
+                rng.choice([r for r in ERR_ROUTES if r != "kw"])
+            if route and route.startswith("relative") and (
+                    key == "xerr" or min(abs(v) for v in vals) * 8 < max(abs(v) for v in vals)):
+                # sigma_i = |y_i|/4 on data that span more than a factor 8 (or cross zero) gives
+                # weights spread over more than 64: the few smallest ordinates decide the fit, and
+                # for the iterative models scipy's termination then misses the certificate
+                # (thorough tier: no convergence / a flat direction) -- not this class's subject
+                route = "setter"
+            T[key + "_route"] = route
+            if route is None:
+                T[key] = None
+            elif route.startswith("relative"):
+                # the stated uncertainty IS a relative one: sigma_i = |value_i| / 4 (exact)
+                case[key] = [abs(v) * 0.25 for v in vals]
+                case["s" + key[0]] = "point"
+                T[key] = rng.choice(flt)
+            elif isinstance(err, list):
+                T[key] = rng.choice(sq)
+            else:
+                T[key] = rng.choice(sc)
+        for k_, v_ in fo.items():
+            if k_ in ("x", "y", "xrange", "degrees", "parguess", "call", "xrange_seq", "refit"):
+                T[k_] = v_
+            elif k_ in ("xerr", "yerr") and T[k_] is not None and not (
+                    T[k_ + "_route"] or "").startswith("relative"):
+                # a scalar tag for a common value, the list of it / the array dtype per point
+                if isinstance(case[k_], list) and ":" not in v_:
+                    v_ = "list:" + v_
+                if not isinstance(case[k_], list) and ":" in v_:
+                    continue
+                T[k_] = v_
+        case["types"] = T
+        case["form"] = "typed:" + container
+        try:
+            typed_args(np, case)     # every number representable in its type
+        except ValueError:
+            continue
+        return case
+    raise RuntimeError("no typed problem for " + family)
+
+
+def typed_args(np, case, drop_xerr=False):
+    """the Python objects a typed case hands to the library"""
+    T = case["types"]
+    out = {"x": conv_seq(np, T["x"], case["x"]), "y": conv_seq(np, T["y"], case["y"])}
+    for key in ("xerr", "yerr"):
+        e = case[key]
+        if e is None or (key == "xerr" and drop_xerr):
+            out[key] = None
+        elif (T[key + "_route"] or "").startswith("relative"):
+            out[key] = conv_scalar(np, T[key], 0.25)
+        elif isinstance(e, list):
+            out[key] = conv_seq(np, T[key], e)
+        else:
+            out[key] = conv_scalar(np, T[key], e)
+    if case.get("xrange"):
+        seq = [conv_scalar(np, T["xrange"], v) for v in case["xrange"]]
+        out["xrange"] = tuple(seq) if T["xrange_seq"] == "tuple" else seq
+    if case["model"] == "polynomial":
+        out["degrees"] = conv_scalar(np, T["degrees"], case["degree"])
+    if case.get("parguess") is not None:
+        g = case["parguess"]
+        t = T["parguess"]
+        if t == "int-where-large":
+            # parguess=[500, 0.2]: whole numbers where that moves the guess by less than 3 %
+            g = [int(round(v)) if abs(v) >= 16 else v for v in g]
+        elif t == "np.float32":
+            g = [np.float32(v) for v in g]
+        elif t == "Fraction":
+            from fractions import Fraction
+            g = [Fraction(v) for v in g]
+        elif t == "np.float64":
+            g = [np.float64(v) for v in g]
+        out["parguess"] = tuple(g) if case.get("guess_kind") == "tuple" else list(g)
+    return out
+
+
+def call_fit_typed(q, case, drop_xerr=False, use_range=True, holder=None):
+    import numpy as np
+    T = case["types"]
+    A = typed_args(np, case, drop_xerr=drop_xerr)
+    n = len(case["x"])
+    kw = {}
+    if "xrange" in A and use_range:
+        kw["xrange"] = A["xrange"]
+    if "degrees" in A and case.get("degrees_kw", True):
+        kw["degrees"] = A["degrees"]
+    if "parguess" in A:
+        kw["parguess"] = A["parguess"]
+    model = model_arg(q, case)
+    cont = T["container"]
+    if cont in ("lists", "xyds", "plot"):
+        ek = {k: A[k] for k in ("xerr", "yerr") if A[k] is not None}
+        if cont == "lists":
+            return q.fit(A["x"], A["y"], model, **ek, **kw)
+        if cont == "xyds":
+            ds = q.XYDataSet(A["x"], A["y"], **ek)
+            return q.fit(ds, model, **kw) if T["call"] == "fit" else ds.fit(model, **kw)
+        import qexpy.plotting as qplt
+        fig = qplt.plot(A["x"], A["y"], **ek)
+        if holder is not None:
+            holder["fig"] = fig
+        return fig.fit(model, **kw)
+    later = {}
+    pending = []
+
+    def write_errors(arr, err):
+        errs = err if hasattr(err, "__len__") else [err] * n
+        for meas, e in zip(arr, errs):
+            meas.error = e
+
+    def build(key_v, key_e):
+        vals, err = A[key_v], A[key_e]
+        route = T[key_e + "_route"]
+        if err is None:
+            return q.MeasurementArray(vals)
+        if route == "setter-late":
+            pending.append((key_e, err))
+            return q.MeasurementArray(vals, 0.75)
+        if route == "ctor":
+            return q.MeasurementArray(vals, err)
+        if route == "relative-ctor":
+            return q.MeasurementArray(vals, relative_error=err)
+        if route in ("kw-on-marray", "kw-over-old"):
+            later[key_e] = err
+            return q.MeasurementArray(vals, 0.75) if route == "kw-over-old" else q.MeasurementArray(vals)
+        arr = q.MeasurementArray(vals)
+        if route == "relative-setter":
+            for meas in arr:
+                meas.relative_error = err
+            return arr
+        write_errors(arr, err)
+        return arr
+    xa, ya = build("x", "xerr"), build("y", "yerr")
+    ds = None if cont == "marrays" else q.XYDataSet(xa, ya, **later)
+
+    def fit_now():
+        if ds is None:
+            return q.fit(xa, ya, model, **later, **kw)
+        return q.fit(ds, model, **kw) if T["call"] == "fit" else ds.fit(model, **kw)
+    if pending:
+        if T.get("refit"):
+            try:
+                fit_now()       # a first fit of the data as they were; its result is not used
+            except RuntimeError:
+                pass
+        for key_e, err in pending:
+            write_errors((xa if ds is None else ds.xdata) if key_e == "xerr" else
+                         (ya if ds is None else ds.ydata), err)
+    return fit_now()
+
+
+# ---------------------------------------------------------------------------------------------
+# REPEATED MEASUREMENTS as data points: q.Measurement([readings]).  The point's value and its
+# uncertainty (what the fit weighs with and chi-squared divides by) are what the point REPORTS:
+# by default the mean and the error on the mean -- not the standard deviation of the readings --
+# and other statistics after use_std_for_uncertainty / use_error_weighted_mean_as_value /
+# use_propagated_error_for_uncertainty.  The readings are constructed on a dyadic grid (2^-16) so
+# that mean, standard deviation and error on the mean are exact in binary64:
+#   4 readings  v+d, v+d, v+d, v-3d          mean v, std 2d, error on the mean d
+#   9 readings  v+d (x4), v-d (x4), v         mean v, std d,  error on the mean d/3
+# and, with per-reading uncertainties e/2, e, e, e, e on readings v+a, v-a (x4):
+#   error-weighted mean v (the plain mean is v - 3a/5), propagated error e/sqrt(8).
+REP_KINDS = ("mean-error", "mean-error", "std", "std-and-back", "weighted")
+REP_GRID = 2.0 ** -16
+
+
+def _dy(v):
+    return round(v / REP_GRID) * REP_GRID
+
+
+def make_readings(rng, v, s, kind):
+    """-> (readings, per-reading uncertainties or None, value, sigma) for a point that should
+    report about (v, s); value and sigma are what it reports exactly"""
+    v = _dy(v)
+    if kind == "weighted":
+        e = 2.0 ** round(math.log2(max(s, 4 * REP_GRID) * math.sqrt(8)))
+        a = _dy(rng.uniform(0.5, 2.0) * e) or REP_GRID
+        rd = [v + a] + [v - a] * 4
+        er = [e / 2, e, e, e, e]
+        order = list(range(5))
+        rng.shuffle(order)
+        sigma = 1.0 / math.sqrt(4.0 / (e * e) + 4 * (1.0 / (e * e)))
+        return [rd[i] for i in order], [er[i] for i in order], v, sigma
+    n = rng.choice([4, 9])
+    s = max(_dy(s), REP_GRID)
+    if n == 4:
+        d = s if kind != "std" else max(_dy(s / 2), REP_GRID)
+        rd = [v + d, v + d, v + d, v - 3 * d]
+        sigma = d if kind != "std" else 2 * d
+    else:
+        d = 3 * s if kind != "std" else s
+        rd = [v + d] * 4 + [v - d] * 4 + [v]
+        sigma = d / 3.0 if kind != "std" else d
+    if rng.random() < 0.5:
+        rd = [2 * v - t for t in rd]          # mirrored
+    rng.shuffle(rd)
+    return rd, None, v, sigma
+
+
+def gen_repeated(rng, family=None, kind=None, xrep=None, form=None, **kw):
+    """a fit problem whose y points (and, for some, x points) are repeated measurements"""
+    kw.setdefault("want_range", False)
+    case = gen_case(rng, family=family, form="marrays", sy="point",
+                    sx=kw.pop("sx", None) or rng.choice(["none", "none", "point"]), noise_free=False,
+                    guess=False, **kw)
+    kind = kind or rng.choice(REP_KINDS)
+    n = len(case["x"])
+    rep = {"y": {"kind": kind, "readings": [], "errors": []}}
+    ys, sy = [], []
+    for v, s in zip(case["y"], case["yerr"]):
+        rd, er, val, sig = make_readings(rng, v, s, kind)
+        rep["y"]["readings"].append(rd)
+        rep["y"]["errors"].append(er)
+        ys.append(val)
+        sy.append(sig)
+    case["y"], case["yerr"] = ys, sy
+    poly = case["model"] in PRESET_POLY
+    if xrep is None:
+        xrep = (not poly) and case["xerr"] is not None and rng.random() < 0.5
+    if xrep and isinstance(case["xerr"], list) and all(e > 0 for e in case["xerr"]):
+        xk = rng.choice(["mean-error", "std"])
+        rep["x"] = {"kind": xk, "readings": [], "errors": []}
+        xs, sx = [], []
+        for v, s in zip(case["x"], case["xerr"]):
+            rd, er, val, sig = make_readings(rng, v, s, xk)
+            rep["x"]["readings"].append(rd)
+            rep["x"]["errors"].append(er)
+            xs.append(val)
+            sx.append(sig)
+        if len(set(xs)) == n:
+            case["x"], case["xerr"] = xs, sx
+        else:
+            del rep["x"]
+    case["xs"] = [_dy(v) for v in case["xs"]]
+    rep["how"] = form or rng.choice(["fit(x, yarr)", "fit(xarr, yarr)", "XYDataSet(x, yarr)",
+                                     "XYDataSet(xarr, yarr).fit", "plot(x, yarr).fit"])
+    case["rep"] = rep
+    case["form"] = "repeated:" + rep["how"]
+    case.pop("xerr_edit", None)
+    return case
+
+
+def rep_array(q, spec):
+    ms = []
+    for rd, er in zip(spec["readings"], spec["errors"]):
+        m = q.Measurement(list(rd), list(er)) if er else q.Measurement(list(rd))
+        ms.append(m)
+    k = spec["kind"]
+    for m in ms:
+        if k in ("std", "std-and-back"):
+            m.use_std_for_uncertainty()
+        if k == "std-and-back":
+            m.use_error_on_mean_for_uncertainty()
+        if k == "weighted":
+            m.use_error_weighted_mean_as_value()
+            m.use_propagated_error_for_uncertainty()
+    return q.MeasurementArray(ms)
+
+
+def call_fit_repeated(q, case, drop_xerr=False, use_range=True, holder=None):
+    rep = case["rep"]
+    kw = {}
+    if case.get("xrange") and use_range:
+        kw["xrange"] = tuple(case["xrange"])
+    if case["model"] == "polynomial":
+        kw["degrees"] = case["degree"]
+    if case.get("parguess") is not None:
+        kw["parguess"] = list(case["parguess"])
+    model = model_arg(q, case)
+    ya = rep_array(q, rep["y"])
+    how = rep["how"]
+    xerr = None if drop_xerr else case["xerr"]
+    if "x" in rep and not drop_xerr:
+        xa = rep_array(q, rep["x"])
+        xplain = False
+    else:
+        xplain = xerr is None
+        xa = list(case["x"]) if xplain else q.MeasurementArray(list(case["x"]), xerr)
+    if how in ("fit(x, yarr)", "fit(xarr, yarr)"):
+        if how == "fit(xarr, yarr)" and xplain:
+            xa = q.MeasurementArray(xa)
+        return q.fit(xa, ya, model, **kw)
+    if how.startswith("XYDataSet"):
+        if how == "XYDataSet(xarr, yarr).fit" and xplain:
+            xa = q.MeasurementArray(xa)
+        ds = q.XYDataSet(xa, ya)
+        return ds.fit(model, **kw) if how.endswith(".fit") else q.fit(ds, model, **kw)
+    import qexpy.plotting as qplt
+    fig = qplt.plot(xa, ya)
+    if holder is not None:
+        holder["fig"] = fig
+    return fig.fit(model, **kw)
+
+
+# ---------------------------------------------------------------------------------------------
+# THE OTHER BRANCH: parameter sets with negative members.  The Gaussian depends on std through
+# std^2 only, a*sin(b*x) is even under (a, b) -> (-a, -b): (norm, mean, -std) and (-a, -b) are
+# optima in their own right, reached from a guess on that side; amplitudes may be negative.
+SIGN_VARIANTS = {
+    "gaussian": ("neg-std", "neg-norm", "neg-std-neg-norm"),
+    "exponential": ("neg-amplitude", "neg-rate"),
+    "custom:sine": ("mirror", "neg-amplitude"),
+    "custom:growth": ("neg-amplitude",),
+    "custom:lorentz": ("neg-amplitude",),
+    "custom:decay": ("neg-amplitude",),
+    "custom:lpeak": ("neg-width", "neg-amplitude"),
+}
+
+
+def gen_signed(rng, family=None, variant=None, **kw):
+    """a non-polynomial problem whose generating parameters (and the guess next to them) lie on a
+    mirrored / negative branch"""
+    family = family or rng.choice(sorted(SIGN_VARIANTS))
+    variant = variant or rng.choice(SIGN_VARIANTS[family])
+    units = kw.pop("units", None)
+    kw.setdefault("noise_free", rng.random() < 0.25)
+    case = gen_case(rng, family=family, **kw)
+    flip = {"neg-std": [2], "neg-norm": [0], "neg-std-neg-norm": [0, 2], "neg-amplitude": [0],
+            "neg-rate": [1], "mirror": [0, 1], "neg-width": [2]}[variant]
+    for key in ("ptrue", "parguess"):
+        case[key] = [-v if k in flip else v for k, v in enumerate(case[key])]
+    f = ref_fn(case)
+    old = case["y"]
+    # y changes sign with the amplitude / grows instead of decaying: regenerate on the same noise
+    base = gen_noise(case, old, flip)
+    case["y"] = base
+    case["signs"] = variant
+    if units is not None and (units[0] != 1.0 or units[1] != 1.0):
+        rescale(case, float(units[0]), float(units[1]))
+    return case
+
+
+def gen_noise(case, old_y, flip):
+    """the data of the mirrored problem: the model at the new generating parameters plus the
+    noise the old data carried relative to the old curve"""
+    f = ref_fn(case)
+    new_p = case["ptrue"]
+    old_p = [-v if k in flip else v for k, v in enumerate(new_p)]
+    out = []
+    for x, y in zip(case["x"], old_y):
+        noise = y - f(x, *old_p)
+        out.append(f(x, *new_p) + (0.0 if case["noise_free"] else noise))
+    return out
 
 
 def eval_points(case):
@@ -681,6 +1249,25 @@ def observe(q, case, drop_xerr=False, full=True, use_range=True):
                     other = [r.fit_function(int(x) if float(x).is_integer() and abs(x) < 2 ** 53
                                             else np.float64(x)) for x in xs]
                     out["fit_npscalar" + sfx] = [[float(v.value), float(v.error)] for v in other]
+                    # every other numeric type that represents the point exactly (TYPE NOTES):
+                    # Fraction always does; numpy integers / float32 where the point is one
+                    tp = [typed_point(np, x, k + len(sfx)) for k, x in enumerate(xs)]
+                    typed = [r.fit_function(x) for x in tp]
+                    out["fit_typed" + sfx] = [[float(v.value), float(v.error)] for v in typed]
+                    out["fit_typed_types" + sfx] = [type(x).__name__ for x in tp]
+                    tp = [typed_point(np, x, k + 1) for k, x in enumerate(xs)]
+                    tl = r.fit_function(tp)
+                    out["fit_typedlist" + sfx] = [[float(v.value), float(v.error)] for v in tl]
+                    out["fit_typedlist_types" + sfx] = [type(x).__name__ for x in tp]
+                    # arrays of the other dtypes, where every point is representable
+                    for dt_, key in ((np.float32, "fit_array_f32"), (np.int64, "fit_array_i64"),
+                                     (np.int32, "fit_array_i32")):
+                        try:
+                            ta = conv_seq(np, "array:" + dt_.__name__, xs)
+                        except (ValueError, OverflowError):
+                            continue
+                        res_ = r.fit_function(ta)
+                        out[key + sfx] = [[float(v.value), float(v.error)] for v in res_]
                 if case.get("hist") and case.get("hist_first"):
                     pass        # nothing evaluated before the history
                 else:
@@ -698,8 +1285,10 @@ def observe(q, case, drop_xerr=False, full=True, use_range=True):
                     out["str@after"] = str(r)
                     if case.get("hist_first"):
                         for k in ("fit", "fit_list", "fit_list_type", "fit_array", "fit_array_type",
-                                  "fit_npscalar"):
-                            out[k] = out[k + "@after"]
+                                  "fit_npscalar", "fit_typed", "fit_typedlist", "fit_array_f32",
+                                  "fit_array_i64", "fit_array_i32"):
+                            if k + "@after" in out:
+                                out[k] = out[k + "@after"]
         except Exception as e:  # noqa: BLE001
             out["exception"] = "{}: {}".format(type(e).__name__, e)
     if holder:
